@@ -75,6 +75,15 @@ ROUND5 = {
     "C19": " Also: Usages deleted with foreground propagation.",
 }
 
+# Added by the sixth round.
+ROUND6 = {
+    "C05": " Also: one long-lived reconciler over healthy and fatal reconciles of two XRs, in every order.",
+    "C08": " Also: H1 from a claim that was never reconciled (first sync with a fault or crash at any call, deletion, retries): every XR that names the claim is deleted before the claim's finalizer goes.",
+    "C12": " Also: after a completed reconcile the revision of the current content is controlled by the Composition (also after a backup / restore stripped the owner references).",
+    "C15": " Also: 2-3 concurrent readers of the shared package cache (thread mode; scheduling points between Get, read and close).",
+    "C17": " Also: a cyclic Lock reconciled three times by the same resolver instance.",
+}
+
 CLAIMED.update({
     "C10": {
         "text": "Exhaustive products over a 42-value JSON alphabet (every JSON type, int64/float boundaries, nested), 108 transform configurations (every transform type and parameter corner incl. negative/out-of-range regexp groups, malformed formats), chains of two, 7 patch types x 13 from-paths x 16 to-paths x 13 policies/merge options, combine patches, render/metadata cases: Resolve/Apply never panic, are deterministic and pure (source deep-equal before/after), optional-missing is a no-op and required-missing an error, results agree with an independent reference of each transform's documented meaning and the convert round-trip laws; reconciler-level scenarios show a composed resource whose from-XR patch, metadata or name generation failed is not written while its sibling is, and that the merge options of one template's patches do not change what is applied for the next template.",
@@ -195,7 +204,7 @@ def main():
                 "evidence_file": f"evidence/{cid}.json",
                 "replay_cmd_template": "./vcheck replay {path}",
                 "engine": "explore",
-                "level_claimed": {"category": LEVEL[cid], "text": c["text"] + ROUND4.get(cid, "") + ROUND5.get(cid, ""), "design_ref": f"DESIGN.md section 3 {cid}"},
+                "level_claimed": {"category": LEVEL[cid], "text": c["text"] + ROUND4.get(cid, "") + ROUND5.get(cid, "") + ROUND6.get(cid, ""), "design_ref": f"DESIGN.md section 3 {cid}"},
                 "level_note": c.get("note", COMMON_NOTE),
                 "technique": c["technique"],
             })
